@@ -9,6 +9,7 @@ first or second open, non-seekable file objects.
 """
 import io
 import os
+import re
 import sys
 import types
 
@@ -33,7 +34,8 @@ RULE = ("two thirds of the runs: one run = one swarm configuration (standard, re
         "non-seekable stream for file readers), or a CLI batch of 2-5 files with some damaged, "
         "or a fault-free differential run; one third of the runs (focused mode): one statement or "
         "construct of the statement zoo in a minimal subprogram with one single-token fault "
-        "(delete / duplicate / swap / replace by punctuation or keyword), enumerated evenly "
+        "(delete / duplicate / duplicate a pair / swap / split / cut / replace by punctuation or "
+        "keyword), enumerated evenly "
         "over all statements in a per-seed order (second-order faults once the single ones are "
         "exhausted); non-trivial = at least one fault actually changed the "
         "bytes or a read; distinct = distinct event-log digest")
@@ -43,7 +45,8 @@ ASSUMPTIONS = [
     "injected exception object itself may escape the parse -- nothing else is relaxed",
     "the step budget (200000 + 20000 x physical lines rule constructions, where lines re-served "
     "by the simulated file system through recursive INCLUDEs count as input) and the wall "
-    "watchdog are the 'generous time bound'",
+    "watchdog are the 'generous time bound'; an overrun in a source with 5 or more IF/WHERE "
+    "constructs open at once is the known exponential case (K5), any other overrun is reported",
     "string readers receive the bytes decoded with errors='replace' (a str cannot hold invalid "
     "UTF-8); file readers receive the raw bytes",
 ]
@@ -125,7 +128,7 @@ def _damage(st, sw, text, cfg, stats_features):
 
 # ---- focused mode: single statements, single-token faults, enumerated -----------------
 _FOCUS = None
-_FOCUS_OPS = ["delete", "duplicate", "swap_next", "split", "head1", "drop_last", "punct::", "punct:,", "punct:(", "punct:)",
+_FOCUS_OPS = ["delete", "duplicate", "duplicate2", "swap_next", "split", "head1", "drop_last", "punct::", "punct:,", "punct:(", "punct:)",
               "punct:=", "punct:'", "keyword:end"]
 
 
@@ -220,6 +223,11 @@ def _focused_case(run_seed, cfg, case):
             del new[i]
         elif op == "duplicate":
             new.insert(i, new[i])
+        elif op == "duplicate2":
+            # this token and the next one, repeated as a pair ('nm: nm: do ...')
+            j = next((x for x in sig if x > i), None)
+            if j is not None and j < len(new):
+                new[i:i] = new[i:j + 1] + [" "]
         elif op == "split":
             if len(new[i]) >= 2:
                 cut = 1 + (i + len(new[i])) % (len(new[i]) - 1)
@@ -246,42 +254,46 @@ def _focused_case(run_seed, cfg, case):
     return case
 
 
-_OPEN_RE = None
+# The parser's work on a syntax error grows about threefold with every IF (or WHERE) construct
+# that encloses the failing statement (known finding K5); every other construct adds a constant.
+EXP_NEST_KNOWN = 5
 
 
-def nesting_depth(text):
-    """Maximum nesting depth of block constructs in a source text (approximate, line based):
-    used only to tell the known exponential-backtracking case apart from other time-outs."""
-    import re
-
-    global _OPEN_RE
-    if _OPEN_RE is None:
-        _OPEN_RE = (
-            re.compile(r"^\s*(\d+\s+)?(\w+\s*:\s*)?(do\b|if\s*\(.*\)\s*then\b|select\b|"
-                       r"associate\b|block\b(?!\s*data)|critical\b|forall\s*\(.*\)\s*$|"
-                       r"where\s*\(.*\)\s*$)", re.I),
-            re.compile(r"^\s*(\d+\s+)?end\s*(do|if|select|associate|block|critical|forall|"
-                       r"where)\b", re.I),
-            re.compile(r"^\s*(\d+\s+)?(\w+\s*:\s*)?do\s+(\d+)\b", re.I))
-    opener, closer, dolab = _OPEN_RE
-    depth = deepest = 0
-    labels = []
-    for ln in text.split("\n"):
-        m = dolab.match(ln)
-        if m:
-            labels.append(m.group(3))
-            depth += 1
-        elif opener.match(ln):
-            depth += 1
-        elif closer.match(ln):
-            depth = max(0, depth - 1)
-        else:
-            m = re.match(r"^\s*(\d+)\s", ln)
-            if m and m.group(1) in labels:
-                depth = max(0, depth - labels.count(m.group(1)))
-                labels = [x for x in labels if x != m.group(1)]
-        deepest = max(deepest, depth)
+def exp_nesting(text):
+    """Upper bound on the number of IF/WHERE constructs open at once in a source text, as the
+    parser can see them.  Deliberately generous (a statement that merely ends in THEN opens a
+    level, only an exact END IF / END WHERE closes one, blanks are ignored as in fixed form):
+    it is used only to tell the known exponential case apart from other time-outs, so erring
+    upwards can hide a change but can never raise an alarm on unchanged code."""
+    stack = []
+    deepest = 0
+    for line in text.split("\n"):
+        for seg in line.split(";"):
+            s = re.sub(r"\s+", "", seg.lower())
+            if not s:
+                continue
+            m = re.match(r"^\d*end(if|where)\w*(!.*)?$", s)
+            if m:
+                if stack and stack[-1] == m.group(1):
+                    stack.pop()
+                continue
+            if re.search(r"then(!.*)?$", s) and not re.match(r"^\d*else", s):
+                stack.append("if")
+            elif re.match(r"^\d*(\w+:)?where\(.*\)(!.*)?$", s):
+                stack.append("where")
+            deepest = max(deepest, len(stack))
     return deepest
+
+
+def budget_site(texts, default):
+    """Site of a step-budget violation: the known exponential case is named by what identifies
+    it (EXP_NEST_KNOWN or more IF/WHERE constructs open at once); anything else keeps
+    ``default`` and is reported."""
+    depths = [exp_nesting(t) for t in texts]
+    depth = depths[0] + max(depths[1:] or [0])     # an included file is inlined anywhere
+    if depth >= EXP_NEST_KNOWN:
+        return "if-or-where-constructs-nested-%d-deep-or-more" % EXP_NEST_KNOWN, depth
+    return default, depth
 
 
 def _nest_case(sw, case):
@@ -581,7 +593,10 @@ def execute(case):
                 violate("C06.e cli-batch-terminated-by-exit", res[1],
                         {"order": case["order"], "damaged": case["damaged"]})
             elif res[0] == "budget":
-                violate("C06.d step-budget-exceeded", "cli", {"count": res[1]})
+                site, depth = budget_site(["\n".join(
+                    image[n].decode("utf-8", "replace") for n in sorted(image))], "cli")
+                violate("C06.d step-budget-exceeded", site, {"count": res[1],
+                                                             "if_where_nesting": depth})
             elif res[0] != "returned":
                 violate("C06.e cli-batch-aborted-by-exception", "%s@%s" % (res[1], res[2]),
                         {"order": case["order"], "damaged": case["damaged"]})
@@ -640,11 +655,13 @@ def execute(case):
                     probe("system_exit_trapped")
                     violate("C06.b process-exit", outcome[1], {"phase": "parse"})
                 elif outcome[0] == "budget":
-                    depth = nesting_depth(data.decode("utf-8", "replace"))
-                    site = "block-constructs-nested-%d-deep-or-more" % 11 if depth >= 11 else kind
+                    texts = [data.decode("utf-8", "replace")] + [
+                        image[n].decode("utf-8", "replace") for n in sorted(image)
+                        if n != "main.f90"]
+                    site, depth = budget_site(texts, kind)
                     violate("C06.d step-budget-exceeded", site, {"count": outcome[1],
                                                                   "lines": nlines,
-                                                                  "nesting_depth": depth})
+                                                                  "if_where_nesting": depth})
                 elif outcome[0] == "printfail":
                     violate("C06.c print-raises", "%s@%s" % (outcome[1], outcome[2]), {})
                 elif outcome[0] == "escape":
@@ -711,7 +728,9 @@ def _execute_focus_batch(case, stats, events, violations, state_keys, probe, vio
                 probe("system_exit_trapped")
                 violate("C06.b process-exit", outcome[1], dict(detail, phase="parse"))
             elif outcome[0] == "budget":
-                violate("C06.d step-budget-exceeded", "string", dict(detail, count=outcome[1]))
+                site, depth = budget_site([text], "string")
+                violate("C06.d step-budget-exceeded", site,
+                        dict(detail, count=outcome[1], if_where_nesting=depth))
             elif outcome[0] == "printfail":
                 violate("C06.c print-raises", "%s@%s" % (outcome[1], outcome[2]), detail)
             elif outcome[0] == "escape":
